@@ -109,6 +109,22 @@ class C07(Check):
             rd = None
             outs.append('e:' + exc_name(e))
         models = [drv.ask(('exefs-parse', header))]
+        if rd is not None and len(header) >= 0xA0:
+            # whatever the header is (also fuzzed ones): an ACCEPTED header has no entry (= slot that is not 16 zero bytes) with
+            # a misaligned offset or a non-ASCII name - independent of the sizes, the data and the order of the slots
+            for i in range(10):
+                raw = header[16 * i:16 * i + 16]
+                if raw == bytes(16):
+                    continue
+                if int.from_bytes(raw[8:12], 'little') % 0x200:
+                    mon.append(f'accepted a header whose slot {i} has offset {int.from_bytes(raw[8:12], "little"):#x} (size '
+                               f'{int.from_bytes(raw[12:16], "little")}): not a multiple of 0x200')
+                    key = 'exefs.accept'
+                    break
+                if any(b >= 0x80 for b in raw[:8]):
+                    mon.append(f'accepted a header whose slot {i} has the non-ASCII name {raw[:8].hex()}')
+                    key = 'exefs.accept'
+                    break
         nontrivial = outs[0] != 'ok '
         if wf:
             # direct monitor: the reader reports exactly the packed table, in slot order
